@@ -125,10 +125,14 @@ def eval_case(case):
                            "variants": {"Foo": {"id": "Foo", "uid": "Foo", "name": "Foo", "type": "variant", "arches": ["x86_64"], "paths": {}}}}}
         if case.get("rseed", 0) % 3 == 1:
             del doc["payload"]["compose"]["type"]       # "exist only inside the id": no stored type at all (otherwise a stale one)
+        if case.get("rseed", 0) % 5 == 2:
+            doc["payload"]["compose"]["id"] = cid + "-Server"       # IDs of that time went on after the respin (a tree's variant)
         if x["layered"]:
             doc["payload"]["product"]["is_layered"] = True
             doc["payload"]["base_product"] = {"name": "Base", "short": x["bpshort"], "version": bpver, "type": x["bptype"]}
         c2 = ComposeInfo()
+        if case.get("rseed", 0) % 2:
+            c2.compose.id = doc["payload"]["compose"]["id"]         # the caller already knew which compose it was about to read
         try:
             c2.loads(json.dumps(doc))
             got = (c2.compose.date, c2.compose.type, c2.compose.respin)
